@@ -11,7 +11,9 @@ entries, 24 random orders beyond).  Checked on the implementation, by direct ins
 and, where an operation model exists (element-wise operations, from_aggregator, permute,
 reshape, squeeze, to_sptenmat, sptenmat.to_sptensor, tensor.to_sptensor; ttv, ttm, collapse, contract,
 scale through the C02 driver ops; squash; __getitem__ / __setitem__ through the C04 driver op; the
-sptenmat constructor; sptendiag and sptenrand (on its recorded draws) through the C20 driver ops),
+sptenmat constructor; sptendiag and sptenrand (on its recorded draws) through the C20 driver ops; copy /
+__deepcopy__ and every sptenmat operation — copy, __deepcopy__, +M, -M, __setitem__ sequences, double, full,
+norm, nnz, isequal, to_sptensor — through the C06 driver ops `sp_copy`, `spm_*`),
  (4) the stored form equals the Lean model's for every order.
 The list of public methods that can return a sparse object is introspected from the classes and
 compared with the list covered here; the evidence tags name what is covered without a model
@@ -19,8 +21,10 @@ compared with the list covered here; the evidence tags name what is covered with
 """
 from __future__ import annotations
 
+import copy as _copy
 import inspect
 import itertools
+import math
 import operator
 import warnings
 
@@ -50,15 +54,34 @@ RULE = ("every public sparse operation (13 binary element-wise operations x {sca
         "several / all but one / all for order 4; every pair of equal modes for contract), operands with 3..5 "
         "entries of which two or more share the remaining subscripts (collide after the operation) and are stored "
         "non-adjacently, summing and cancelling, hitting at most half and more than half of the result cells (both "
-        "sides of the densify switch), under all n! stored orders; non-trivial = at least two stored entries in a reordered "
+        "sides of the densify switch), under all n! stored orders; a family `sptenmat_ops`: sparse matricized tensors built "
+        "with copy=False over tshapes of order 1..3 (singleton modes, repeated and pairwise distinct extents, an empty row or "
+        "column side), 0..6 stored (row, col) pairs of both signs under all n! stored orders: copy / __deepcopy__ / +M / -M / "
+        "double / full / norm / nnz / to_sptensor / isequal against the model, the dense matrix reference and across orders; "
+        "__setitem__ sequences of 1..3 assignments with key elements int / list / ndarray / slice (negative bounds, steps), "
+        "values Python int / float / column / 1-d array / list, over stored pairs only, new pairs only, both, several pairs, "
+        "(as separate classes) zero values and repeated cells, and malformed requests (non-tuple key, 3-tuple, index outside "
+        "the matrix, negative index, value array of the wrong size, zero slice step) that must leave the object unchanged; "
+        "non-trivial = at least two stored entries in a reordered "
         "operand and an accepted request; distinct = distinct case hash")
 ASSUMPTIONS = [
     "values are small integers, so sums formed in different orders are the same double",
     "the plain constructor is given well-formed input (it stores what it is given; C06_ctor_keeps)",
-    "sptenmat.__setitem__ is a write, not a combining or filtering operation: assigning 0 stores an explicit 0.0 "
-    "(sptensor.__setitem__ deletes the entry); its result is inspected without the no-explicit-zero clause",
+    "sptenmat.__setitem__ through sptensor.to_sptenmat (family order_independence) is inspected without the "
+    "no-explicit-zero clause; the family sptenmat_ops inspects it WITH the clause and reports the explicit zero an "
+    "assigned 0 leaves, and the pair a repeated key cell stores twice, as findings",
+    "sptenmat.__setitem__ is modelled for Python int / float values and 1-d / column arrays with float stored values "
+    "(NumPy integer scalars and matrix-shaped value arrays are refused or mis-read by the code: input validation, C19)",
 ]
 EXHAUSTIVE = {"quick": False, "thorough": False}
+# functions mirrored by the hand-written model Ops/SptenmatOps.lean (advisory drift detection)
+ANCHORS = [("pyttb/sptenmat.py", "sptenmat.copy"), ("pyttb/sptenmat.py", "sptenmat.__deepcopy__"),
+           ("pyttb/sptenmat.py", "sptenmat.__pos__"), ("pyttb/sptenmat.py", "sptenmat.__neg__"),
+           ("pyttb/sptenmat.py", "sptenmat.__setitem__"), ("pyttb/sptenmat.py", "sptenmat.double"),
+           ("pyttb/sptenmat.py", "sptenmat.full"), ("pyttb/sptenmat.py", "sptenmat.norm"), ("pyttb/sptenmat.py", "sptenmat.nnz"),
+           ("pyttb/sptenmat.py", "sptenmat.isequal"), ("pyttb/sptenmat.py", "sptenmat.to_sptensor"),
+           ("pyttb/sptenmat.py", "sptenmat.shape"), ("pyttb/sptensor.py", "sptensor.copy"),
+           ("pyttb/sptensor.py", "sptensor.__deepcopy__")]
 
 
 # ----------------------------------------------------------------------------
@@ -371,7 +394,14 @@ OPS += [
     Op("extract", lambda rng, s: {"q": [rng.choice(gen.all_subs(s)) for _ in range(rng.randint(1, 4))]},
        lambda A, B, p: A.extract(np.array(p["q"], dtype=int)), None),
     Op("mask", _none, lambda A, B, p: A.mask(B), None, two=True),
-    Op("copy", _none, lambda A, B, p: A.copy(), None, no_zero=True),
+    Op("copy", _none, lambda A, B, p: A.copy(), lambda c, a, b: {"op": "sp_copy", "S": Aj(c, a)}, no_zero=True),
+    Op("deepcopy", _none, lambda A, B, p: _copy.deepcopy(A), lambda c, a, b: {"op": "sp_copy", "S": Aj(c, a)}, no_zero=True,
+       public="__deepcopy__"),
+    Op("getitem:mixed", lambda rng, s: {"parts": [rand_key_part(rng, e) for e in s]},
+       lambda A, B, p: A[_region_key3(p["parts"])],
+       lambda c, a, b: {"op": "c04_sparse", "start": Aj(c, a),
+                        "ops": [{"op": "read", "key": {"k": "region", "parts": p_parts3(c["p"]["parts"])}}]},
+       public="__getitem__"),
     Op("full", _none, lambda A, B, p: A.full(), None),
     Op("double", _none, lambda A, B, p: A.double(), None),
     Op("norm", _none, lambda A, B, p: A.norm(), None),
@@ -463,6 +493,30 @@ def p_parts(parts):
     return out
 
 
+def rand_key_part(rng, ext):
+    """one element of a region key: ["int", k] (also negative) | ["slice", a, b, c] | ["list", [...]] (entries may repeat)"""
+    k = rng.choice(["int", "neg", "slice", "slice", "list", "list", "full"])
+    if k == "int":
+        return ["int", rng.randrange(ext)]
+    if k == "neg":
+        return ["int", -rng.randint(1, ext)]
+    if k == "full":
+        return ["slice", None, None, None]
+    if k == "slice":
+        return ["slice", rng.choice([None, 0, 1, -1, -2, ext, ext + 1]), rng.choice([None, 0, 1, 2, -1, ext, ext + 2]),
+                rng.choice([None, 1, 2, -1, -2])]
+    return ["list", [rng.randrange(ext) for _ in range(rng.randint(1, 3))]]
+
+
+def _region_key3(parts):
+    return tuple(int(q[1]) if q[0] == "int" else slice(q[1], q[2], q[3]) if q[0] == "slice" else list(q[1]) for q in parts)
+
+
+def p_parts3(parts):
+    return [{"int": q[1]} if q[0] == "int" else {"slice": [q[1], q[2], q[3]]} if q[0] == "slice" else {"list": q[1]}
+            for q in parts]
+
+
 def _spm_setitem(A, p):
     M = A.to_sptenmat(np.array([0], dtype=int))
     M[p["i"], p["j"]] = p["v"]
@@ -488,7 +542,8 @@ class OrderIndependence(Family):
                 "C06_perm_ne", "C06_perm_lt", "C06_perm_le", "C06_perm_gt", "C06_perm_ge", "C06_perm_unary",
                 "C06_perm_lookups", "C06_perm_shape_ops", "C06_same_array_same_entries", "C06_wf_ttv", "C06_perm_ttv",
                 "C06_perm_ttv_core", "C06_wf_collapse", "C06_perm_collapse", "C06_wf_contract", "C06_perm_contract",
-                "C06_wf_perm_scale", "C06_wf_ttm", "C06_perm_ttm", "C06_wf_squash", "C06_perm_squash", "C06_perm_indexing")
+                "C06_wf_perm_scale", "C06_wf_ttm", "C06_perm_ttm", "C06_wf_squash", "C06_perm_squash", "C06_perm_indexing",
+                "C06_wf_getitem_region", "C06_wf_sptensor_copy", "C06_perm_sptensor_copy")
 
     def gen(self, rng, tier):
         out = []
@@ -979,7 +1034,7 @@ class CellPairs(Family):
 
 def norm_model(opname, mm):
     """bring the model's reply to the canonical stored form used for the implementation."""
-    if opname == "permute" or opname == "reshape":
+    if opname in ("permute", "reshape", "copy", "deepcopy"):
         return {"sp": mm}
     if opname == "squeeze":
         return {"num": mm["scalar"]} if "scalar" in mm else {"sp": mm["obj"]}
@@ -1170,18 +1225,592 @@ class Constructors(Family):
         return out
 
 
+# ----------------------------------------------------------------------------
+# the sparse matricized tensor: every public operation, on objects built with copy=False (any stored order)
+# ----------------------------------------------------------------------------
+SPM_SPLITS = [  # (tshape, rdims, cdims): singleton modes, repeated and pairwise distinct extents, an empty side
+    ([2, 3], [0], [1]), ([2, 3], [1], [0]), ([3, 2], [0], [1]), ([2, 2], [0], [1]), ([1, 3], [0], [1]), ([3, 1], [0], [1]),
+    ([2, 3, 2], [0], [1, 2]), ([2, 3, 2], [2, 0], [1]), ([3, 1, 2], [1, 2], [0]), ([2, 2, 2], [1], [0, 2]),
+    ([2, 3, 4], [1], [2, 0]), ([4], [0], []), ([3], [], [0]), ([2, 3], [], [1, 0]), ([2, 3], [0, 1], []), ([1, 1], [0], [1]),
+]
+
+
+def spm_dims(ts, r, c):
+    return gen.numel([ts[x] for x in r]), gen.numel([ts[x] for x in c])
+
+
+def spm_cells(ts, r, c):
+    nr, nc = spm_dims(ts, r, c)
+    return [[i, j] for j in range(nc) for i in range(nr)]
+
+
+def spm_entries(rng, ts, r, c, kmax=6, klass=None):
+    cells = spm_cells(ts, r, c)
+    klass = klass or rng.choice(["empty", "one", "some", "some", "some", "some", "all"])
+    k = {"empty": 0, "one": 1, "all": min(len(cells), kmax)}.get(klass, rng.randint(2, max(2, min(kmax, len(cells)))))
+    subs = rng.sample(cells, min(k, len(cells)))
+    return {"subs": subs, "vals": [rng.choice(VALUES) for _ in subs]}
+
+
+def mk_spm(c, ent):
+    n = len(ent["subs"])
+    r, cc = np.array(c["r"], dtype=int), np.array(c["c"], dtype=int)
+    if n == 0:
+        return ttb.sptenmat(rdims=r, cdims=cc, tshape=tuple(c["ts"]), copy=False)
+    return ttb.sptenmat(np.array(ent["subs"], dtype=int).reshape(n, 2), np.array(ent["vals"], dtype=float).reshape(n, 1),
+                        r, cc, tuple(c["ts"]), copy=False)
+
+
+def spm_json(c, ent):
+    return {"tshape": c["ts"], "rdims": c["r"], "cdims": c["c"], "subs": ent["subs"], "vals": ent["vals"]}
+
+
+def spm_dense(c, ent):
+    D = np.zeros(spm_dims(c["ts"], c["r"], c["c"]))
+    for (i, j), v in zip(ent["subs"], ent["vals"]):
+        D[i, j] += v
+    return D
+
+
+def spm_expand(M):
+    """the matrix the stored triples denote (values under one pair add up)."""
+    D = np.zeros(tuple(int(x) for x in M.shape))
+    subs, vals = np.asarray(M.subs), np.asarray(M.vals).reshape(-1)
+    if subs.size:
+        np.add.at(D, (subs[:, 0].astype(int), subs[:, 1].astype(int)), vals)
+    return D
+
+
+def spm_tensor_of(c, D):
+    """the tensor whose (rdims, cdims) matricization is the matrix D (the specification of to_sptensor)."""
+    ts, r, cc = c["ts"], c["r"], c["c"]
+    X = np.zeros(tuple(ts))
+    rs, cs = [ts[x] for x in r], [ts[x] for x in cc]
+    for i in range(D.shape[0]):
+        for j in range(D.shape[1]):
+            if D[i, j] != 0:
+                sub = [0] * len(ts)
+                for m, x in zip(r, np.unravel_index(i, rs, order="F") if rs else ()):
+                    sub[m] = int(x)
+                for m, x in zip(cc, np.unravel_index(j, cs, order="F") if cs else ()):
+                    sub[m] = int(x)
+                X[tuple(sub)] = D[i, j]
+    return X
+
+
+def spm_key_py(key):
+    """key as the Python object handed to __setitem__; {"bare": part} is a key that is not a tuple."""
+    def part(q):
+        if q[0] == "int":
+            return int(q[1])
+        if q[0] == "list":
+            return list(q[1])
+        if q[0] == "arr":
+            return np.array(q[1], dtype=int)
+        return slice(q[1], q[2], q[3])
+    if isinstance(key, dict):
+        return part(key["bare"])
+    return tuple(part(q) for q in key)
+
+
+def spm_key_model(key):
+    def part(q):
+        if q[0] == "int":
+            return {"int": q[1]}
+        if q[0] in ("list", "arr"):
+            return {"list": q[1]}
+        return {"slice": [q[1], q[2], q[3]]}
+    if isinstance(key, dict):
+        return [part(key["bare"])]
+    return [part(q) for q in key]
+
+
+def spm_val_py(val):
+    t, v = val["t"], val["v"]
+    if t == "int":
+        return int(v)
+    if t == "float":
+        return float(v)
+    if t == "col":
+        return np.array(v, dtype=float).reshape(-1, 1)
+    if t == "vec":
+        return np.array(v, dtype=float)
+    return [float(x) for x in v]
+
+
+def spm_val_model(val):
+    return {"scalar": val["v"]} if val["t"] in ("int", "float") else {"arr": val["v"]}
+
+
+def spm_resolve(q, ext):
+    """index list of one key element by Python's own slice semantics (the specification); None = refused."""
+    if q[0] == "int":
+        l = [q[1]]
+    elif q[0] in ("list", "arr"):
+        l = list(q[1])
+    else:
+        if q[3] == 0:
+            return None
+        l = list(range(ext))[slice(q[1], q[2], q[3])]
+    return l if all(0 <= x < ext for x in l) else None
+
+
+def spm_spec_step(D, key, val):
+    """the specification of `M[key] = val` on the dense matrix: None when the request must be refused, else the
+    list of (row, col, value) in assignment order."""
+    if isinstance(key, dict) or len(key) != 2:
+        return None
+    rs, cs = spm_resolve(key[0], D.shape[0]), spm_resolve(key[1], D.shape[1])
+    if rs is None or cs is None:
+        return None
+    cells = [(i, j) for j in cs for i in rs]
+    if val["t"] in ("int", "float"):
+        vs = [val["v"]] * len(cells)
+    else:
+        vs = list(val["v"])
+        if len(vs) != len(cells):
+            return None
+    return [(i, j, v) for (i, j), v in zip(cells, vs)]
+
+
+def rand_spm_part(rng, ext, want=None):
+    k = want or rng.choice(["int", "int", "list", "arr", "slice", "slice", "full"])
+    if k == "int":
+        return ["int", rng.randrange(ext)]
+    if k in ("list", "arr"):
+        return [k, rng.sample(range(ext), rng.randint(1, min(ext, 3)))]     # no repeated index
+    if k == "full":
+        return ["slice", None, None, None]
+    return ["slice", rng.choice([None, 0, 1, -1, -ext]), rng.choice([None, 1, 2, -1, ext, ext + 2]), rng.choice([None, 1, 2, -1])]
+
+
+def rand_spm_val(rng, n, zero=False, allow1d=True):
+    """a value for n cells; 1-d arrays / lists only where the code copes with them (see class vec-new)"""
+    pool = [5, -3, 7, 2, -1]
+    t = rng.choice(["int", "float", "col", "vec", "list"] if allow1d else ["int", "float", "col", "col"])
+    if t in ("int", "float"):
+        return {"t": t, "v": 0 if zero else rng.choice(pool)}
+    vs = [rng.choice(pool) for _ in range(n)]
+    if zero and n:
+        vs[rng.randrange(n)] = 0
+    elif zero:
+        return {"t": "int", "v": 0}
+    return {"t": t, "v": vs}
+
+
+class SptenmatOps(Family):
+    """Sparse matricized tensors built with copy=False (stored exactly as given), every stored order of the triples:
+    copy / __deepcopy__ / +M / -M / double / full / norm / nnz / to_sptensor / isequal, and __setitem__ sequences,
+    against the Lean model (stored form), the dense matrix reference (the specification) and across orders; every
+    returned sptenmat / sptensor is inspected for well-formedness including the no-explicit-zero clause."""
+    name = "sptenmat_ops"
+    theorems = ("C06_wf_sptenmat_copy", "C06_perm_sptenmat_copy", "C06_wf_sptenmat_pos", "C06_perm_sptenmat_pos",
+                "C06_wf_sptenmat_neg", "C06_perm_sptenmat_neg", "C06_sptenmat_setitem_cells", "C06_wf_sptenmat_setitem",
+                "C06_perm_sptenmat_setitem", "C06_sptenmat_setitem_zero_counterexample",
+                "C06_sptenmat_setitem_repeated_counterexample", "C06_wf_sptenmat_nnz", "C06_perm_sptenmat_nnz",
+                "C06_wf_sptenmat_norm", "C06_perm_sptenmat_norm", "C06_wf_sptenmat_double", "C06_perm_sptenmat_double",
+                "C06_wf_sptenmat_full", "C06_perm_sptenmat_full", "C06_wf_sptenmat_to_sptensor",
+                "C06_perm_sptenmat_to_sptensor", "C06_sptenmat_isequal_iff", "C06_perm_sptenmat_isequal_counterexample",
+                "C06_perm_sptenmat_copy_literal", "C06_perm_sptenmat_neg_literal", "C06_perm_sptenmat_isequal_canonical",
+                "C06_perm_sptenmat_setitem_appended")
+
+    # ------------------------------------------------------------------ generation
+    def gen(self, rng, tier):
+        out = []
+        quick = tier == "quick"
+        splits = SPM_SPLITS
+
+        def base(k):
+            ts, r, c = rng.choice(splits)
+            return {"k": k, "ts": ts, "r": r, "c": c, "seed": rng.getrandbits(32)}
+
+        # deterministic part: every split once with a fixed unsorted content
+        for ts, r, c in splits:
+            b = {"k": "ops", "ts": ts, "r": r, "c": c, "seed": 4242}
+            cells = spm_cells(ts, r, c)
+            pick = [cells[-1], cells[0], cells[len(cells) // 2]]
+            pick = [list(x) for x in dict.fromkeys(tuple(x) for x in pick)]
+            b["ent"] = {"subs": pick, "vals": [3, -2, 5][:len(pick)]}
+            b["other"] = {"subs": pick, "vals": [3, -2, 4][:len(pick)]}
+            out.append(b)
+        for _ in range(30 if quick else 500):
+            b = base("ops")
+            b["ent"] = spm_entries(rng, b["ts"], b["r"], b["c"])
+            b["other"] = rng.choice([spm_entries(rng, b["ts"], b["r"], b["c"], 4), reorder(b["ent"], gen.perm(rng, len(b["ent"]["subs"])))])
+            out.append(b)
+        for _ in range(4 if quick else 40):
+            b = base("isequal")
+            b["ent"] = spm_entries(rng, b["ts"], b["r"], b["c"], 4, "some")
+            if len(b["ent"]["subs"]) >= 2:
+                out.append(b)
+        out.append({"k": "empty", "seed": 1})
+        # __setitem__ sequences
+        for klass, n in (("clean", 60 if quick else 1200), ("zero", 6 if quick else 60), ("repeat", 6 if quick else 60),
+                         ("vec-new", 4 if quick else 40), ("malformed", 24 if quick else 300)):
+            for _ in range(n):
+                b = base("setitem")
+                b["class"] = klass
+                b["ent"] = spm_entries(rng, b["ts"], b["r"], b["c"], 5)
+                nr, nc = spm_dims(b["ts"], b["r"], b["c"])
+                stored_cells = {tuple(x) for x in b["ent"]["subs"]}
+                steps = []
+                for _s in range(rng.randint(1, 3)):
+                    steps.append(self.clean_step(rng, nr, nc, stored_cells))
+                if klass == "zero":
+                    key = [rand_spm_part(rng, nr), rand_spm_part(rng, nc)]
+                    steps.append({"key": key, "val": rand_spm_val(rng, self.count(key, nr, nc), zero=True,
+                                                                  allow1d=self.safe1d(key, nr, nc, stored_cells))})
+                elif klass == "vec-new":
+                    # a 1-d value array for two or more pairs that are not stored, on an object that stores something
+                    key = None
+                    for _t in range(20):
+                        k2 = [rand_spm_part(rng, nr, rng.choice(["list", "arr", "slice", "full"])), rand_spm_part(rng, nc)]
+                        if stored_cells and not self.safe1d(k2, nr, nc, stored_cells):
+                            key = k2
+                            break
+                    if key is None:
+                        continue
+                    steps.append({"key": key, "val": {"t": rng.choice(["vec", "list"]), "v": [rng.choice([5, -3, 7]) for _ in range(self.count(key, nr, nc))]}})
+                elif klass == "repeat":
+                    i, j = rng.randrange(nr), rng.randrange(nc)
+                    if rng.random() < 0.5:
+                        key = [[rng.choice(["list", "arr"]), [i, i]], ["int", j]]
+                    else:
+                        key = [["list", [i]], [rng.choice(["list", "arr"]), [j, j]]]
+                    steps.append({"key": key, "val": rng.choice([{"t": "col", "v": [5, 6]}, {"t": "col", "v": [6, 5]}, {"t": "int", "v": 7}])})
+                elif klass == "malformed":
+                    steps.insert(rng.randrange(len(steps) + 1), self.bad_step(rng, nr, nc))
+                b["steps"] = steps
+                out.append(b)
+        return out
+
+    @staticmethod
+    def count(key, nr, nc):
+        rs, cs = spm_resolve(key[0], nr), spm_resolve(key[1], nc)
+        return len(rs or []) * len(cs or [])
+
+    @staticmethod
+    def safe1d(key, nr, nc, stored_cells):
+        """the code copes with a 1-d value array unless two or more pairs are appended to a non-empty object"""
+        rs, cs = spm_resolve(key[0], nr), spm_resolve(key[1], nc)
+        new = sum(1 for j in cs or [] for i in rs or [] if (i, j) not in stored_cells)
+        return not (new >= 2 and stored_cells)
+
+    def clean_step(self, rng, nr, nc, stored_cells):
+        """an accepted assignment with non-zero values and no repeated cell; aimed at stored pairs only, new pairs
+        only, or a region (both); updates `stored_cells`."""
+        aim = rng.choice(["stored", "new", "region", "region"])
+        free = [(i, j) for j in range(nc) for i in range(nr) if (i, j) not in stored_cells]
+        if aim == "stored" and stored_cells:
+            i, j = rng.choice(sorted(stored_cells))
+            key = [["int", i], ["int", j]] if rng.random() < 0.6 else [["list", [i]], ["arr", [j]]]
+        elif aim == "new" and free:
+            i, j = rng.choice(free)
+            key = [["int", i], ["int", j]] if rng.random() < 0.6 else [["arr", [i]], ["slice", j, j + 1, None]]
+        else:
+            key = [rand_spm_part(rng, nr), rand_spm_part(rng, nc)]
+        rs, cs = spm_resolve(key[0], nr), spm_resolve(key[1], nc)
+        ok1d = self.safe1d(key, nr, nc, stored_cells)
+        for j in cs or []:
+            for i in rs or []:
+                stored_cells.add((i, j))
+        return {"key": key, "val": rand_spm_val(rng, len(rs or []) * len(cs or []), allow1d=ok1d)}
+
+    def bad_step(self, rng, nr, nc):
+        kind = rng.choice(["bare", "three", "row-out", "col-out", "negative", "list-out", "size", "size", "step0"])
+        ok_r, ok_c = ["int", rng.randrange(nr)], ["int", rng.randrange(nc)]
+        v = {"t": "int", "v": 4}
+        if kind == "bare":
+            return {"key": {"bare": ok_r}, "val": v}
+        if kind == "three":
+            return {"key": [ok_r, ok_c, ["int", 0]], "val": v}
+        if kind == "row-out":
+            return {"key": [["int", nr + rng.randint(0, 1)], ok_c], "val": v}
+        if kind == "col-out":
+            return {"key": [ok_r, ["int", nc]], "val": v}
+        if kind == "negative":
+            return {"key": rng.choice([[["int", -1], ok_c], [ok_r, ["list", [0, -1]]]]), "val": v}
+        if kind == "list-out":
+            return {"key": [["arr", [0, nr]], ok_c], "val": v}
+        if kind == "step0":
+            return {"key": [["slice", None, None, 0], ok_c], "val": v}
+        key = [["slice", None, None, None], ok_c]
+        return {"key": key, "val": {"t": rng.choice(["col", "vec", "list"]), "v": [4] * (nr + rng.choice([-1, 1, 2]))}}
+
+    # ------------------------------------------------------------------ evaluation
+    def evaluate(self, cases):
+        import random
+        plans, reqs = [], []
+        for c in cases:
+            rng = random.Random(c.get("seed", 0))
+            runs = []
+            if c["k"] == "empty":
+                runs.append(([], self.impl_empty()))
+                reqs.append({"op": "spm_observe", "M": {"tshape": [], "rdims": [], "cdims": [], "subs": [], "vals": []}})
+            else:
+                ent = c["ent"]
+                for o in orders_of(len(ent["subs"]), rng):
+                    e = reorder(ent, o)
+                    if c["k"] == "ops":
+                        runs.append((o, self.impl_ops(c, e)))
+                        Mj = spm_json(c, e)
+                        reqs += [{"op": "spm_copy", "M": Mj}, {"op": "spm_pos", "M": Mj}, {"op": "spm_neg", "M": Mj},
+                                 {"op": "spm_observe", "M": Mj}, {"op": "spm_isequal", "M": Mj, "N": Mj},
+                                 {"op": "spm_isequal", "M": Mj, "N": spm_json(c, c["other"])}]
+                    elif c["k"] == "isequal":
+                        runs.append((o, call(lambda e=e: bool(mk_spm(c, e).isequal(mk_spm(c, ent))))))
+                        reqs.append({"op": "spm_isequal", "M": spm_json(c, e), "N": spm_json(c, ent)})
+                    else:
+                        runs.append((o, self.impl_setitem(c, e)))
+                        reqs.append({"op": "spm_setitem", "M": spm_json(c, e),
+                                     "steps": [{"key": spm_key_model(st["key"]), "rhs": spm_val_model(st["val"])} for st in c["steps"]]})
+            plans.append(runs)
+        models = iter(drive(reqs))
+        out = []
+        for c, runs in zip(cases, plans):
+            if c["k"] == "empty":
+                out.append(self.judge_empty(c, runs, next(models)))
+            elif c["k"] == "ops":
+                out.append(self.judge_ops(c, [(o, r, [next(models) for _ in range(6)]) for o, r in runs]))
+            elif c["k"] == "isequal":
+                out.append(self.judge_isequal(c, [(o, r, next(models)) for o, r in runs]))
+            else:
+                out.append(self.judge_setitem(c, [(o, r, next(models)) for o, r in runs]))
+        return out
+
+    # ---- the component-free object
+    def impl_empty(self):
+        return call(lambda: (lambda E: {"nnz": int(E.nnz), "stored": int(np.asarray(E.subs).size), "vals": int(np.asarray(E.vals).size),
+                                        "norm": float(E.norm())})(ttb.sptenmat()))
+
+    def judge_empty(self, c, runs, m):
+        tags = ["empty-ctor", "modelled"]
+        r = runs[0][1]
+        if "ok" not in r:
+            return Verdict("violation", f"sptenmat(): raised {r.get('exc')}: {r.get('msg')}", r, m, None, tags, False)
+        r = r["ok"]
+        if r["nnz"] != 0 or r["nnz"] != m["nnz"]:
+            return Verdict("violation", f"sptenmat(): nnz reports {r['nnz']} for an object without stored entries "
+                           f"({r['stored']} subscripts, {r['vals']} values)", r, m, {"nnz": 0}, tags, False)
+        if r["norm"] != 0.0:
+            return Verdict("violation", f"sptenmat(): norm {r['norm']} of an object without stored entries", r, m, None, tags, False)
+        return Verdict("ok", "", None, None, None, tags, False)
+
+    # ---- copy / pos / neg / observers
+    def impl_ops(self, c, e):
+        M = mk_spm(c, e)
+        before = sptenmat_j(M)
+        res = {
+            "copy": call(lambda: M.copy()), "deepcopy": call(lambda: _copy.deepcopy(M)), "pos": call(lambda: +M),
+            "neg": call(lambda: -M), "double": call(lambda: M.double()), "full": call(lambda: M.full()),
+            "norm": call(lambda: M.norm()), "nnz": call(lambda: M.nnz), "to_sptensor": call(lambda: M.to_sptensor()),
+            "iseq_self": call(lambda: bool(M.isequal(mk_spm(c, e)))), "iseq_other": call(lambda: bool(M.isequal(mk_spm(c, c["other"])))),
+        }
+        res["unchanged"] = deep_eq(sptenmat_j(M), before)
+        return res
+
+    def judge_ops(self, c, runs):
+        n = len(c["ent"]["subs"])
+        tags = ["ops", f"orders{min(len(runs), 99)}", f"nnz{n}", "modelled", "ts:" + "x".join(map(str, c["ts"])),
+                "side-empty" if not c["r"] or not c["c"] else "sides-nonempty"]
+        D = spm_dense(c, c["ent"])
+        X = spm_tensor_of(c, D)
+        first = {}
+        for o, res, ms in runs:
+            m_copy, m_pos, m_neg, m_obs, m_eqs, m_eqo = ms
+            where = f"sptenmat {c['ts']} rdims {c['r']} cdims {c['c']} stored in order {o}"
+            for name in ("copy", "deepcopy", "pos", "neg", "double", "full", "norm", "nnz", "to_sptensor", "iseq_self", "iseq_other"):
+                if "ok" not in res[name]:
+                    return Verdict("violation", f"{where}: {name} raised {res[name].get('exc')}: {res[name].get('msg')}", res[name], None, None, tags)
+            if not res["unchanged"]:
+                return Verdict("violation", f"{where}: an observer changed the receiver", None, None, None, tags)
+            # well-formedness of every returned sparse object
+            for name in ("copy", "deepcopy", "pos", "neg"):
+                p = wf_sptenmat(res[name]["ok"], True)
+                if p:
+                    return Verdict("violation", f"{where}: {name} not well-formed: {p}", stored(res[name]["ok"]), None, None, tags)
+            p = wf_sptensor(res["to_sptensor"]["ok"], True)
+            if p:
+                return Verdict("violation", f"{where}: to_sptensor not well-formed: {p}", stored(res["to_sptensor"]["ok"]), None, None, tags)
+            # the specification: the dense matrix
+            for name, want in (("copy", D), ("deepcopy", D), ("pos", D), ("neg", -D)):
+                if not np.array_equal(spm_expand(res[name]["ok"]), want):
+                    return Verdict("violation", f"{where}: {name} denotes another matrix", stored(res[name]["ok"]), None, jval(want), tags)
+            if not np.array_equal(np.asarray(res["double"]["ok"].toarray()), D):
+                return Verdict("violation", f"{where}: double() is not the denoted matrix", stored(res["double"]["ok"]), None, jval(D), tags)
+            if not np.array_equal(np.asarray(res["full"]["ok"].data), D):
+                return Verdict("violation", f"{where}: full() is not the denoted matrix", stored(res["full"]["ok"]), None, jval(D), tags)
+            if res["norm"]["ok"] != math.sqrt(float((D * D).sum())):
+                return Verdict("violation", f"{where}: norm() is not the root of the sum of squares", res["norm"]["ok"], None, float((D * D).sum()), tags)
+            if res["nnz"]["ok"] != int(np.count_nonzero(D)):
+                return Verdict("violation", f"{where}: nnz reports {res['nnz']['ok']} for {int(np.count_nonzero(D))} non-zero cells", res["nnz"]["ok"], None, None, tags)
+            if not np.array_equal(expand_any(res["to_sptensor"]["ok"], c["ts"]), X):
+                return Verdict("violation", f"{where}: to_sptensor is not the tensor of the matrix", stored(res["to_sptensor"]["ok"]), None, jval(X), tags)
+            if res["iseq_self"]["ok"] is not True:
+                return Verdict("violation", f"{where}: not isequal to an identical object", None, None, None, tags)
+            # across orders
+            d = {k: denote(res[k]["ok"]) for k in ("copy", "neg", "to_sptensor")}
+            d["copy-stored"] = stored(res["copy"]["ok"])      # sorted by np.unique: literally the same for every order
+            d["neg-stored"] = stored(res["neg"]["ok"])
+            d["copies-isequal"] = bool(res["copy"]["ok"].isequal(res["pos"]["ok"]))
+            if not d["copies-isequal"]:
+                return Verdict("violation", f"{where}: M.copy() and +M are not isequal", d, None, None, tags)
+            if not first:
+                first = d
+            elif not deep_eq(d, first):
+                return Verdict("violation", f"{where}: copy / neg / to_sptensor differ from those for another stored order", d, None, first, tags)
+            # the model
+            got = {"copy": stored(res["copy"]["ok"]), "deepcopy": stored(res["deepcopy"]["ok"]), "pos": stored(res["pos"]["ok"]),
+                   "neg": stored(res["neg"]["ok"])}
+            want = {"copy": m_copy, "deepcopy": m_copy, "pos": m_pos, "neg": m_neg}
+            for k in got:
+                if "ok" not in want[k] or not deep_eq(got[k], {"spm": want[k]["ok"]}):
+                    return Verdict("corr", f"{where}: {k}: stored form differs from the model's", got[k], want[k], None, tags)
+            obs = {"nnz": res["nnz"]["ok"], "double": stored(res["double"]["ok"])["arr"],
+                   "full": {"tshape": list(res["full"]["ok"].tshape), "rdims": jval(np.asarray(res["full"]["ok"].rindices)),
+                            "cdims": jval(np.asarray(res["full"]["ok"].cindices)), "data": ndarray_j2(res["full"]["ok"].data)},
+                   "to_sptensor": sparse_j(res["to_sptensor"]["ok"])}
+            mo = {"nnz": m_obs["nnz"], "double": m_obs["double"].get("ok"), "full": m_obs["full"].get("ok"),
+                  "to_sptensor": m_obs["to_sptensor"].get("ok")}
+            if not deep_eq(obs, mo):
+                return Verdict("corr", f"{where}: nnz / double / full / to_sptensor differ from the model's", obs, mo, None, tags)
+            if res["norm"]["ok"] != math.sqrt(float(frac_of(m_obs["normsq"]))):
+                return Verdict("corr", f"{where}: norm differs from the root of the model's sum of squares", res["norm"]["ok"], m_obs["normsq"], None, tags)
+            if res["iseq_self"]["ok"] != m_eqs["equal"] or res["iseq_other"]["ok"] != m_eqo["equal"]:
+                return Verdict("corr", f"{where}: isequal differs from the model's", [res["iseq_self"]["ok"], res["iseq_other"]["ok"]],
+                               [m_eqs, m_eqo], None, tags)
+        return Verdict("ok", "", None, None, None, tags, n >= 2)
+
+    # ---- isequal across stored orders (the property: interchangeable)
+    def judge_isequal(self, c, runs):
+        tags = ["isequal-orders", f"orders{len(runs)}", "modelled"]
+        for o, r, m in runs:
+            if "ok" not in r:
+                return Verdict("violation", f"sptenmat.isequal: raised {r.get('exc')}: {r.get('msg')}", r, m, None, tags)
+            if r["ok"] != m["equal"]:
+                return Verdict("corr", f"sptenmat.isequal (receiver in order {o}): differs from the model's", r["ok"], m, None, tags)
+        for o, r, m in runs:
+            if r["ok"] is not True:
+                return Verdict("violation", f"sptenmat.isequal: {c['ent']} on {c['ts']} stored in order {o} is not isequal to the same "
+                               "triples stored in the given order (same matrix, same mode split)", r["ok"], m, True, tags)
+        return Verdict("ok", "", None, None, None, tags, True)
+
+    # ---- __setitem__ sequences
+    def impl_setitem(self, c, e):
+        M = mk_spm(c, e)
+        steps = []
+        for st in c["steps"]:
+            before = sptenmat_j(M)
+            r = call(lambda: M.__setitem__(spm_key_py(st["key"]), spm_val_py(st["val"])))
+            ok = "ok" in r
+            steps.append({"accepted": ok, "exc": r.get("exc"), "msg": r.get("msg"), "before": before, "after": sptenmat_j(M),
+                          "wf": wf_sptenmat(M, True), "dense": spm_expand(M) if ok else None})
+            if not ok and not deep_eq(steps[-1]["after"], before):
+                break      # the object is no longer usable
+        return steps
+
+    def judge_setitem(self, c, runs):
+        klass = c["class"]
+        n = len(c["ent"]["subs"])
+        tags = ["setitem", "class:" + klass, f"orders{min(len(runs), 99)}", f"nnz{n}", f"steps{len(c['steps'])}", "modelled"]
+        # the specification on the dense matrix
+        D = spm_dense(c, c["ent"])
+        spec, Ds, stored_now = [], [], {tuple(x) for x in c["ent"]["subs"]}
+        appended, app = [], False
+        for st in c["steps"]:
+            w = spm_spec_step(D, st["key"], st["val"])
+            spec.append(w)
+            app = app or (w is not None and any((i, j) not in stored_now for i, j, _ in w))
+            appended.append(app)       # a pair was appended by now: the triples were re-sorted
+            if w is not None:
+                cells = [(i, j) for i, j, _ in w]
+                hit = [x in stored_now for x in cells]
+                tags.append("writes:" + ("none" if not cells else "stored" if all(hit) else "new" if not any(hit) else "both"))
+                tags.append("cells:" + ("1" if len(cells) == 1 else "0" if not cells else "several"))
+                tags.append("val:" + st["val"]["t"])
+                for q in st["key"]:
+                    tags.append("key:" + q[0])
+                D = D.copy()
+                for i, j, v in w:
+                    D[i, j] = v
+                    stored_now.add((i, j))
+            else:
+                tags.append("refused")
+            Ds.append(D)
+        expected, other = [], []   # findings of the class the case was built for / anything else
+        first = None
+        for o, steps, m in runs:
+            ms = m["steps"]
+            where0 = f"sptenmat {c['ts']} rdims {c['r']} cdims {c['c']} stored in order {o}"
+            for k, (st, sp, Dk, mk_) in enumerate(zip(steps, spec, Ds, ms)):
+                where = f"{where0}, step {k} M[{c['steps'][k]['key']}] = {c['steps'][k]['val']}"
+                if sp is None:
+                    if st["accepted"]:
+                        other.append(("violation", f"sptenmat.__setitem__: {where}: accepted although the request is malformed", st["after"], mk_))
+                    elif not deep_eq(st["after"], st["before"]):
+                        other.append(("violation", f"sptenmat.__setitem__: {where}: a refused request changed the object", st["after"], mk_))
+                    if not mk_.get("reject"):
+                        other.append(("corr", f"sptenmat.__setitem__: {where}: the model accepts", st["after"], mk_))
+                    continue
+                if not st["accepted"]:
+                    if klass == "vec-new" and c["steps"][k]["val"]["t"] in ("vec", "list") and not deep_eq(st["after"], st["before"]):
+                        expected.append(("violation", f"sptenmat.__setitem__: 1-d value array: {where} raised {st['exc']} after the "
+                                         f"subscripts were appended: {len(st['after']['subs'])} subscripts for {len(st['after']['vals'])} values",
+                                         st["after"], mk_))
+                    else:
+                        other.append(("violation", f"sptenmat.__setitem__: {where}: raised {st['exc']}: {st['msg']}", None, mk_))
+                    break
+                dup = st["wf"] == "a subscript is stored twice"
+                if st["wf"]:
+                    if st["wf"] == "an explicit zero is stored":
+                        (expected if klass == "zero" else other).append(
+                            ("violation", f"sptenmat.__setitem__: explicit zero: {where} leaves an explicit zero stored", st["after"], mk_))
+                    elif dup:
+                        (expected if klass == "repeat" else other).append(
+                            ("violation", f"sptenmat.__setitem__: a pair is stored twice: {where}", st["after"], mk_))
+                    else:
+                        other.append(("violation", f"sptenmat.__setitem__: {where}: object not well-formed: {st['wf']}", st["after"], mk_))
+                if not dup and not np.array_equal(st["dense"], Dk):
+                    other.append(("violation", f"sptenmat.__setitem__: {where}: the matrix afterwards is not the assignment applied to "
+                                  "the matrix before", st["after"], jval(Dk)))
+                if "ok" not in mk_ or not deep_eq(st["after"], mk_["ok"]):
+                    other.append(("corr", f"sptenmat.__setitem__: {where}: stored form differs from the model's", st["after"], mk_))
+            # (a refused request that changed the object is reported above; its debris is not compared across orders)
+            d = [(False, "changed", None) if not st["accepted"] and not deep_eq(st["after"], st["before"]) else
+                 (st["accepted"], sorted_entries(st["after"]["subs"], st["after"]["vals"]),
+                  (st["after"]["subs"], st["after"]["vals"]) if ap and klass != "repeat" else None) for st, ap in zip(steps, appended)]
+            if first is None:
+                first = d
+            elif d != first:
+                other.append(("violation", f"sptenmat.__setitem__: {where0}: acceptance or stored triples differ from those for another "
+                              "stored order", d, first))
+        for status, what, impl, model in other + expected:
+            return Verdict(status, what, impl, model, None, tags)
+        return Verdict("ok", "", None, None, None, tags, n >= 2 and any(sp is not None for sp in spec))
+
+
+def ndarray_j2(a):
+    a = np.asarray(a)
+    return {"shape": [int(x) for x in a.shape], "data": jval(a.flatten(order="F"))}
+
+
+def frac_of(j):
+    from harness.lib import frac
+    return frac(j)
+
+
 SPARSE_DUNDERS = {"__add__", "__sub__", "__mul__", "__rmul__", "__truediv__", "__neg__", "__pos__", "__eq__", "__ne__",
                   "__lt__", "__le__", "__gt__", "__ge__", "__getitem__", "__setitem__"}
 COVERED = {
-    "sptensor": {"__init__": "ctor", "from_aggregator": "model", "from_function": "model", "copy": "impl", "__deepcopy__": "impl",
+    "sptensor": {"__init__": "ctor", "from_aggregator": "model", "from_function": "model", "copy": "model", "__deepcopy__": "model",
                  "collapse": "model", "contract": "model", "elemfun": "model", "to_sptenmat": "model", "logical_and": "model",
                  "logical_not": "model", "logical_or": "model", "logical_xor": "model", "ones": "model", "permute": "model",
                  "reshape": "model", "scale": "model", "squeeze": "model", "ttv": "model", "ttm": "model", "squash": "model",
                  "__add__": "model", "__sub__": "model", "__mul__": "model", "__rmul__": "model", "__truediv__": "model",
                  "__neg__": "model", "__pos__": "model", "__eq__": "model", "__ne__": "model", "__lt__": "model", "__le__": "model",
                  "__gt__": "model", "__ge__": "model", "__getitem__": "model", "__setitem__": "model"},
-    "sptenmat": {"__init__": "model", "from_array": "impl", "copy": "impl", "__deepcopy__": "impl", "to_sptensor": "model",
-                 "__pos__": "impl", "__neg__": "impl", "__setitem__": "impl"},
+    "sptenmat": {"__init__": "model", "from_array": "impl", "copy": "model", "__deepcopy__": "model", "to_sptensor": "model",
+                 "__pos__": "model", "__neg__": "model", "__setitem__": "model"},
 }
 
 
@@ -1238,4 +1867,4 @@ class Coverage(Family):
 
 
 def families():
-    return [CellPairs(), OrderIndependence(), Collisions(), Constructors(), Coverage()]
+    return [CellPairs(), OrderIndependence(), Collisions(), Constructors(), SptenmatOps(), Coverage()]
